@@ -92,7 +92,7 @@ type case = {
   mutable structs : (string * bool) list;
   mutable md5sums : (string * string) list;
   mutable mtree : (string * string * string * string * string) list;
-  mutable triggers : string; mutable install : string option;
+  mutable triggers : string; mutable install : string option; mutable rawmeta : string option;
   mutable filename : string; mutable decode_err : string option; mutable notes : string list;
   mutable extra : (string * string array) list;  (* property-specific lines, reversed *)
 }
@@ -101,7 +101,7 @@ let new_case () = {
   id = ""; format = ""; umask = N0; packager = []; mtime = Z0; entries = []; stats_tbl = []; hashes = []; fsizes = [];
   impl_err = None; impl_ok = false; impl_out = []; unstable = false; info = []; nums = []; lists = []; fields = [];
   scripts = []; members = []; pents = []; cents = []; meta = []; hasconffiles = false; conffiles = []; oscripts = [];
-  digests = []; sizes = []; stamps = []; structs = []; md5sums = []; mtree = []; triggers = ""; install = None;
+  digests = []; sizes = []; stamps = []; structs = []; md5sums = []; mtree = []; triggers = ""; install = None; rawmeta = None;
   filename = ""; decode_err = None; notes = []; extra = [] }
 
 let finish_entry e =
@@ -177,6 +177,7 @@ let iter_cases (ic : in_channel) (on_path : string array -> unit) (f : case -> u
        | "mtree" -> cur.mtree <- (unhexs t.(1), unhexs t.(2), unhexs t.(3), unhexs t.(4), unhexs t.(5)) :: cur.mtree
        | "triggers" -> cur.triggers <- unhexs t.(1)
        | "install" -> cur.install <- Some (unhexs t.(1))
+       | "rawmeta" -> cur.rawmeta <- Some (unhexs t.(1))
        | "filename" -> cur.filename <- unhexs t.(1)
        | "decode" -> cur.decode_err <- Some (unhexs t.(2))
        | "note" -> cur.notes <- unhexs t.(1) :: cur.notes
@@ -479,10 +480,115 @@ let run_c04 ic =
             (List.map (fun (k, _) -> "structure fact false: " ^ k) bad @ (if install_ok then [] else [".INSTALL presence does not match configured scripts"])));
   Printf.printf "SUMMARY cases=%d disagreements=%d impl_failures=%d impl_errors=%d\n" !n !n_dis !n_fail !n_err
 
+(* ---------- C02 ---------- *)
+let group_lists (l : (string * string) list) : (char list * char list list) list =
+  List.fold_left (fun acc (k, v) ->
+      let k' = explode k in
+      if List.mem_assoc k' acc then List.map (fun (k2, vs) -> if k2 = k' then (k2, vs @ [explode v]) else (k2, vs)) acc
+      else acc @ [(k', [explode v])]) [] l
+
+let group_fields (l : (string * string * string) list) : (char list * (char list * char list) list) list =
+  List.fold_left (fun acc (m, k, v) ->
+      let m' = explode m in
+      if List.mem_assoc m' acc then List.map (fun (m2, kvs) -> if m2 = m' then (m2, kvs @ [(explode k, explode v)]) else (m2, kvs)) acc
+      else acc @ [(m', [(explode k, explode v)])]) [] l
+
+(* the version components are recomputed by the model of WithDefaults from the values written in the document *)
+let raw_of (c : case) (k : string) : char list =
+  let l = List.filter_map (fun (tag, t) -> if tag = "raw" && unhexs t.(1) = k then Some (unhex t.(2)) else None) c.extra in
+  match l with v :: _ -> v | [] -> []
+
+let minfo_of (c : case) : minfo =
+  let has_raw = List.exists (fun (tag, _) -> tag = "raw") c.extra in
+  let info =
+    if has_raw then begin
+      let ((v, p), m) = split_version (raw_of c "version_schema") (raw_of c "version") (raw_of c "prerelease") (raw_of c "version_metadata") in
+      List.map (fun (k, x) -> match k with
+          | "version" -> (k, implode v) | "prerelease" -> (k, implode p) | "version_metadata" -> (k, implode m) | _ -> (k, x)) c.info
+    end else c.info in
+  { mi_s = List.map (fun (k, v) -> (explode k, explode v)) info;
+    mi_l = group_lists c.lists; mi_f = group_fields c.fields;
+    mi_n = List.map (fun (k, v) -> (explode k, z_of_int v)) c.nums }
+
+let archtab_of = function
+  | FDeb -> arch_deb | FRpm -> arch_rpm | FApk -> arch_apk | FIpk -> arch_ipk | FArch -> arch_archlinux
+
+let c02_clause_name (cl : c02_clause) = implode (c02_clause_text cl)
+
+let run_c02 ic =
+  let n = ref 0 and n_dis = ref 0 and n_fail = ref 0 and n_err = ref 0 in
+  iter_cases ic (fun _ -> ()) (fun c ->
+      incr n;
+      let f = fmt_of_string c.format in
+      match c.impl_err, c.decode_err with
+      | Some cls, _ ->
+        incr n_err;
+        (* rpm: an unknown relation operator or a bad epoch must fail; nothing else may *)
+        let mi = minfo_of c in
+        if cls = "other" && f = FRpm && rpm_meta (archtab_of f) mi <> None
+           && not (List.exists (fun nt -> starts_with "unknown compression" nt || starts_with "glob failed" nt) c.notes) then begin
+          incr n_dis; report c.id false [] [] ("impl failed but the rpm metadata model succeeds" :: c.notes) end
+      | None, Some d -> incr n_fail; report c.id true ["undecodable"] [] [d]
+      | None, None ->
+        let mi = minfo_of c in
+        let file_sum = List.fold_left (fun acc o -> if o.o_kind = "file" && o.o_inpayload then acc + o.o_size else acc) 0 c.pents in
+        let obs_meta = List.map (fun (k, v) -> (explode k, explode v)) c.meta in
+        let model_text, agree = (match f with
+            | FDeb ->
+              let t = deb_control arch_deb mi (z_of_int (file_sum / 1024)) in
+              Some t, (c.rawmeta = Some (implode t))
+            | FIpk ->
+              let t = ipk_control arch_ipk mi (z_of_int (file_sum / 1024)) in
+              Some t, (c.rawmeta = Some (implode t))
+            | FApk ->
+              let dh = (try List.assoc "datahash" c.meta with Not_found -> "") in
+              let t = apk_pkginfo arch_apk mi (z_of_int file_sum) (explode dh) in
+              Some t, (c.rawmeta = Some (implode t))
+            | FArch ->
+              let backups = (match model_prepared c with Ok cs -> backups_model cs | Err _ -> []) in
+              let bd = (try List.assoc "builddate" c.meta with Not_found -> "0") in
+              let mt = int_of_z c.mtime in
+              let builddate = if mt = int_of_z tzero then int_of_string bd else mt in
+              let t = arch_pkginfo arch_archlinux mi (z_of_int file_sum) (z_of_int builddate) backups in
+              Some t, (c.rawmeta = Some (implode t))
+            | FRpm ->
+              (match rpm_meta arch_rpm mi with
+               | None -> None, false
+               | Some m ->
+                 let keys = List.sort_uniq compare (List.map fst m) in
+                 let proj l = List.filter (fun (k, _) -> List.mem k keys || List.mem (implode k) ["Epoch"; "Vendor"; "Packager"; "Group"; "URL"; "Prefixes";
+                                                                                                "Provides"; "Requires"; "Conflicts"; "Obsoletes"; "Recommends"; "Suggests"]) l in
+                 let canon l = List.sort compare (proj l) in
+                 (* rpmpack adds nothing to the relation lists; order within a tag is preserved by sort stability on equal keys only, so compare per tag *)
+                 let per_tag l = List.map (fun k -> (k, List.filter_map (fun (k2, v) -> if k2 = k then Some v else None) l)) (List.sort_uniq compare (List.map fst (proj l))) in
+                 ignore canon;
+                 Some (List.concat_map (fun (k, v) -> k @ explode ": " @ v @ ['\n']) m), (per_tag m = per_tag obs_meta))) in
+        let clauses = check_C02 f (archtab_of f) arch_doc mi obs_meta in
+        if not agree then incr n_dis;
+        if clauses <> [] then incr n_fail;
+        let kf = List.sort_uniq compare (List.filter_map (fun cl -> let nm = c02_clause_name cl in
+                                                             if nm = "version" && f = FArch && arch_prerelease_dropped mi then Some "archlinux-pkgver-drops-prerelease" else None) clauses) in
+        let kf = if List.length kf > 0 && List.for_all (fun cl -> c02_clause_name cl = "version") clauses then kf else [] in
+        (* deb/ipk description: a line that is exactly "." reads back as a blank line; a line of 64 KiB or more ends the description *)
+        let kf =
+          if kf = [] && (f = FDeb || f = FIpk) && agree && clauses <> [] && List.for_all (fun cl -> c02_clause_name cl = "description") clauses then begin
+            let ls = String.split_on_char '\n' (String.trim (implode (gs mi "description"))) in
+            let dot = List.exists (fun l -> String.trim l = ".") ls and long = List.exists (fun l -> String.length l >= 65536) ls in
+            (if dot then ["deb-description-dot-line"] else []) @ (if long then ["deb-description-64k-line"] else [])
+          end else kf in
+        if (not agree) || clauses <> [] then
+          report ~kf c.id agree (List.sort_uniq compare (List.map c02_clause_name clauses)) []
+            (if agree then [] else
+               ["model: " ^ (match model_text with Some t -> String.escaped (implode t) | None -> "(error)");
+                "impl:  " ^ (match c.rawmeta with Some t -> String.escaped t | None ->
+                    String.escaped (String.concat "" (List.map (fun (k, v) -> k ^ ": " ^ v ^ "\n") c.meta)))]));
+  Printf.printf "SUMMARY cases=%d disagreements=%d impl_failures=%d impl_errors=%d\n" !n !n_dis !n_fail !n_err
+
 let () =
   match Sys.argv with
   | [| _; "C05"; file |] -> let ic = open_in file in run_c05 ic; close_in ic
   | [| _; "C01"; file |] -> let ic = open_in file in run_c01 ic; close_in ic
+  | [| _; "C02"; file |] -> let ic = open_in file in run_c02 ic; close_in ic
   | [| _; "C03"; file |] -> let ic = open_in file in run_c03 ic; close_in ic
   | [| _; "C04"; file |] -> let ic = open_in file in run_c04 ic; close_in ic
   | [| _; "C08"; file |] -> let ic = open_in file in run_c08 ic; close_in ic
